@@ -102,6 +102,7 @@ type subscriber struct {
 	pid    *actor.PID
 	gone   bool
 	heir   func(c *actor.Context) // run once inside the Stopped handler
+	stream *actor.PID             // the sender seen on the first sentinel
 }
 
 func (s *subscriber) receive(c *actor.Context) {
@@ -122,6 +123,9 @@ func (s *subscriber) receive(c *actor.Context) {
 		r = rec{kind: "ev", phase: m.Phase, g: m.G, n: m.N}
 	case sentinel:
 		s.mu.Lock()
+		if s.stream == nil {
+			s.stream = c.Sender() // events arrive with the event stream as their sender
+		}
 		s.sents = max(s.sents, m.N)
 		s.cond.Broadcast()
 		s.mu.Unlock()
@@ -374,6 +378,14 @@ func run(c Case, c09 bool) (feat map[string]int, err error) {
 	}, "live", actor.WithID("0"))
 	h.stopped = e.SpawnFunc(func(c *actor.Context) {}, "stopped", actor.WithID("0"))
 	<-e.Poison(h.stopped).Done()
+	// sender 4: the PID that every subscriber sees as the sender of an event - the event stream itself
+	// (an actor that relays an event onward "with its original sender" uses exactly this PID)
+	if err := h.barrier(); err != nil {
+		return nil, err
+	}
+	h.anchor.mu.Lock()
+	h.senders = append(h.senders, h.anchor.stream)
+	h.anchor.mu.Unlock()
 
 	for oi, op := range c.Ops {
 		if op.I < 0 || op.I >= c.Subs {
@@ -649,6 +661,17 @@ func run(c Case, c09 bool) (feat map[string]int, err error) {
 			case "foreign":
 				tgt = actor.NewPID("other:4000", fmt.Sprintf("far/%d", op.Msg%3))
 				h.add(exp{kind: "rm", tgt: tgt, snd: snd, msg: msg})
+			case "noaddr":
+				// a PID without an address (the zero value, a hand-built one): its address is not this
+				// engine's, so it is a foreign address like any other - also when the id is that of a live actor
+				if isStop || op.Via == "local" {
+					return nil, nil
+				}
+				tgt = &actor.PID{ID: h.live.ID}
+				if op.Msg%2 == 0 {
+					tgt = &actor.PID{ID: fmt.Sprintf("never/%d", op.Msg%3)}
+				}
+				h.add(exp{kind: "rm", tgt: tgt, snd: snd, msg: msg})
 			case "live":
 				tgt = h.live
 			case "namesake":
@@ -707,7 +730,7 @@ func run(c Case, c09 bool) (feat map[string]int, err error) {
 					return nil, fmt.Errorf("op %d: the context of a %s for a %s target never became done", oi, op.Via, op.Tgt)
 				}
 			}
-			if op.Tgt == "namesake" {
+			if op.Tgt == "namesake" || (op.Tgt == "noaddr" && tgt.ID == h.live.ID) {
 				// a probe sent directly to the local actor afterwards: it must be the next thing it gets
 				e.Send(h.live, "probe-after-namesake")
 				select {
@@ -925,8 +948,8 @@ func genCase(t *rapid.T, c09 bool) Case {
 				op.PillBehind = rapid.SampledFrom([]int{0, 0, 1, 2}).Draw(t, "pillbehind")
 			}
 		case "send":
-			op.Tgt = rapid.SampledFrom([]string{"nil", "never", "never", "stopped", "stopped", "foreign", "foreign", "live", "namesake"}).Draw(t, "tgt")
-			op.Snd = rapid.IntRange(0, 3).Draw(t, "snd")
+			op.Tgt = rapid.SampledFrom([]string{"nil", "never", "never", "stopped", "stopped", "foreign", "foreign", "live", "namesake", "noaddr"}).Draw(t, "tgt")
+			op.Snd = rapid.IntRange(0, 4).Draw(t, "snd")
 			op.Msg = rapid.IntRange(0, 13).Draw(t, "msg")
 			switch op.Tgt {
 			case "nil", "never", "stopped":
